@@ -34,7 +34,7 @@ fn main() {
             n += 2;
         }
         let f = |x: i32| x > 1;
-        assert_eq!(slice_count(v.as_slice(), f), v.iter().filter(|&&x| f(x)).count());
+        assert_eq!(slice_count(v.as_slice(), f), v.iter().filter(|&&x| f(x)).count()); n += 1;
     }
     println!("RULECHECK R14/R22 slice_find, slice_any, slice_count vs iter().find/any/filter().count(): all vectors x 6 keys equal");
     // R7 slice_eq vs byte-string patterns
